@@ -26,7 +26,7 @@ class C09(core.Check):
         'adjacent:prefix', 'adjacent:suffix', 'adjacent:infix', 'chain:2', 'chain:3', 'chain:4', 'diamond', 'cycle:1',
         'cycle:2', 'cycle:3', 'cycle:4', 'use-before-define', 'double:isa+isa', 'double:isa+cli', 'double:isa+define',
         'double:cli+cli', 'double:cli+define', 'double:define+define', 'expands-to:register', 'expands-to:label',
-        'expands-to:expression', 'source:isa', 'source:cli', 'source:define', 'unparenthesised-expression-value']}
+        'expands-to:expression', 'source:isa', 'source:cli', 'source:define', 'unparenthesised-expression-value', 'double:identical-text']}
 
     def build(self, rng, mode):
         tags = set()
@@ -146,12 +146,16 @@ class C09(core.Check):
             b = rng.choice(['isa', 'cli', 'define'])
             pair = '+'.join(sorted([a, b], key=['isa', 'cli', 'define'].index))
             tags.add('double:' + pair)
+            # the second definition carries the same text as the first half of the time: still a double definition
+            second = txt if rng.random() < 0.5 else '7'
+            if second == txt:
+                tags.add('double:identical-text')
             if b == 'isa':
-                isa_syms.append((nm, '7'))
+                isa_syms.append((nm, second))
             elif b == 'cli':
-                cli.append((nm, '7'))
+                cli.append((nm, second))
             else:
-                prog_defs.append((nm, '7'))
+                prog_defs.append((nm, second))
             expect_reject = 'double definition ' + pair
         # program: probes interleaved with #define lines; model symbol table evolves in source order
         table = {n: t for n, t in isa_syms}
